@@ -20,6 +20,8 @@ S_wd2 == (1 :> <<<<"wake", 1>>, <<"drop", 1>>>>) @@ (2 :> <<<<"drop", 2>>>>)
 S_w3 == (1 :> <<<<"wake", 1>>>>) @@ (2 :> <<<<"wake", 2>>>>) @@ (3 :> <<<<"wake", 65>>, <<"drop", 65>>>>)
 M_p1 == <<<<"poll">>>>
 M_p2 == <<<<"poll">>, <<"poll">>>>
+M_p3 == <<<<"poll">>, <<"poll">>, <<"poll">>>>
+S_wd3 == (1 :> <<<<"wake", 1>>, <<"drop", 1>>>>) @@ (2 :> <<<<"wake", 4097>>, <<"drop", 4097>>>>)
 M_recycle == <<<<"poll">>, <<"create">>, <<"poll">>, <<"wake", 1000>>, <<"drop", 1000>>>>
 
 \* --- channel configurations
@@ -35,6 +37,7 @@ S_p1 == (1 :> <<<<"recv">>, <<"lsend", 5>>, <<"recv">>>>)
 S_p2 == (1 :> <<<<"lsend", 5>>, <<"lsend", 6>>, <<"recv">>, <<"cancel">>>>)
 S_p3 == (1 :> <<<<"recv">>, <<"panic", "scripted: boom">>>>)
 S_p4 == (1 :> <<<<"lsend", 7>>, <<"recv">>, <<"recv">>, <<"lsend", 8>>>>)
+S_p5 == (1 :> <<<<"recv">>, <<"recv">>, <<"lsend", 9>>, <<"panic", "scripted: late">>>>)
 M_pp1 == <<<<"psend", 1>>, <<"poll">>, <<"psend", 2>>, <<"poll">>, <<"pdrop">>>>
 M_pp2 == <<<<"poll">>, <<"pdrop">>, <<"poll">>>>
 M_pp3 == <<<<"psend", 1>>, <<"psend", 2>>, <<"poll">>, <<"pdrop">>>>
